@@ -3,7 +3,8 @@
      wfile    <id> <stack> <setup> <path hex> <payload> <perm>
      wreader  <id> <stack> <setup> <path hex> <payload> <chunking>
      swreader <id> <stack> <setup> <path hex> <payload> <chunking>
-   Output: M <id>#w, M <id>#r, M <id>#s<layer> *)
+   The case itself is the Gallina function io_case (Model/Cases1718.v); this file parses and prints.
+   Output: M <id>#w, M <id>#r, M <id>#s<layer>, D <id> <digest> *)
 open Model
 open Driver_common
 
@@ -28,33 +29,17 @@ let digest (b : n list) : string =
     Printf.sprintf "n%d:%08x" len !h
   end
 
-let rec take n l = if n <= 0 then [] else match l with [] -> [] | x :: r -> x :: take (n - 1) r
-let rec drop n l = if n <= 0 then l else match l with [] -> [] | _ :: r -> drop (n - 1) r
+(* chunk lengths; the Gallina io_cut does the cutting (a length beyond the end yields what is left) *)
+let lens_of (len : int) (spec : string) : int list =
+  let arg = String.sub spec 2 (String.length spec - 2) in
+  if String.sub spec 0 2 = "c:" then begin
+    let k = int_of_string arg in
+    if k <= 0 || len = 0 then [] else List.init ((len - 1) / k) (fun _ -> k)
+  end else if String.sub spec 0 2 = "l:" then List.map int_of_string (String.split_on_char '.' arg)
+  else failwith ("bad chunking " ^ spec)
 
-let chunks_of (data : int list) (spec : string) : int list list =
-  let len = List.length data in
-  if String.length spec >= 2 && String.sub spec 0 2 = "c:" then begin
-    let k = int_of_string (String.sub spec 2 (String.length spec - 2)) in
-    if k <= 0 then [data] else begin
-      let rec go d n acc = if n > k then go (drop k d) (n - k) (take k d :: acc) else List.rev (d :: acc) in
-      go data len []
-    end
-  end else if String.length spec >= 2 && String.sub spec 0 2 = "l:" then begin
-    let ks = List.map int_of_string (String.split_on_char '.' (String.sub spec 2 (String.length spec - 2))) in
-    let rec go d n ks acc = match ks with
-      | [] -> List.rev (d :: acc)
-      | k :: r -> let k = min k n in go (drop k d) (n - k) r (take k d :: acc) in
-    go data len ks []
-  end else failwith ("bad chunking " ^ spec)
-
-let big_z = z_of_int Fsdriver.big
-
-(* targets of the MemMapFs layers of a stack, in the harness's order *)
-let rec mem_layers (k : stack) (tgt : string) : string list =
-  match k with
-  | SMem -> [if tgt = "" then "." else tgt]
-  | SReadOnly a | SBasePath (_, a) | SRegexp (_, a) -> mem_layers a (tgt ^ "0")
-  | SCow (a, b) | SCache (_, a, b) -> mem_layers a (tgt ^ "0") @ mem_layers b (tgt ^ "1")
+let tgt_s (t : nat list) : string =
+  match t with [] -> "." | _ -> String.concat "" (List.map (fun c -> string_of_int (int_of_nat c)) t)
 
 let snap_digest (l : entry list) : string =
   "snap:" ^ String.concat ";" (List.map (fun e ->
@@ -69,30 +54,30 @@ let res_s (r : res) : string =
   | RData (b, e) -> Printf.sprintf "data:%s:%s" (digest b) (Fsdriver.eopt e)
   | _ -> "unexpected:" ^ Fsdriver.canon_res r
 
-let run_setup (k : stack) (u : ust) (setup : string) : ust =
-  if setup = "-" then u else
-    List.fold_left (fun u it ->
-        match String.split_on_char '=' it with
-        | ["d"; p] -> fst (ustep k u (MkdirAll (bytes_of_hex p, z_of_int 0o755)))
-        | ["f"; p; pl] -> fst (write_file (ustep k) u (bytes_of_hex p) (to_bytes (payload_of pl)) (z_of_int 0o644))
-        | _ -> failwith ("bad setup item " ^ it)) u (String.split_on_char ',' setup)
+let parse_setup (setup : string) : io_setup list =
+  if setup = "-" then [] else
+    List.map (fun it -> match String.split_on_char '=' it with
+        | ["d"; p] -> IoMkdir (bytes_of_hex p)
+        | ["f"; p; pl] -> IoFile (bytes_of_hex p, to_bytes (payload_of pl))
+        | _ -> failwith ("bad setup item " ^ it)) (String.split_on_char ',' setup)
 
 let run_io kind toks =
   match toks with
   | [id; stackdesc; setup; path; payload; last] ->
     let k = Fsdriver.parse_stack stackdesc in
-    let u0 = run_setup k (uset_clock k (uinit k) big_z) setup in
-    let p = bytes_of_hex path in
     let data = payload_of payload in
-    let (u1, w) = match kind with
-      | "wfile" -> write_file (ustep k) u0 p (to_bytes data) (z_of_int (int_of_string last))
-      | "wreader" -> write_reader (ustep k) u0 p (List.map to_bytes (chunks_of data last))
-      | _ -> safe_write_reader (ustep k) u0 p (List.map to_bytes (chunks_of data last)) in
+    let kd = match kind with "wfile" -> 0 | "wreader" -> 1 | _ -> 2 in
+    let lens = if kd = 0 then [] else List.map nat_of_int (lens_of (List.length data) last) in
+    let perm = if kd = 0 then z_of_int (int_of_string last) else z_of_int 0 in
+    let args f = f (nat_of_int kd) k (parse_setup setup) (bytes_of_hex path) (to_bytes data) lens perm in
+    let ((w, r), snaps) = args io_case in
     Printf.printf "M %s#w %s\n" id (res_s w);
-    let (u2, r) = read_file (ustep k) u1 p in
     Printf.printf "M %s#r %s\n" id (res_s r);
-    List.iter (fun t -> Printf.printf "M %s#s%s %s\n" id t (snap_digest (usnapshot k (Fsdriver.parse_tgt t) u2)))
-      (mem_layers k "")
+    List.iter2 (fun t sn -> Printf.printf "M %s#s%s %s\n" id (tgt_s t) (snap_digest sn)) (stack_mem_targets k []) snaps;
+    (* the in-Coq re-evaluation is for small cases: the same Gallina function, fewer bytes *)
+    let small_setup = List.for_all (function IoFile (_, d) -> List.length d <= 2000 | IoMkdir _ -> true) (parse_setup setup) in
+    if Sys.getenv_opt "VERIF_DIGEST" <> None && List.length data <= 2000 && List.length lens <= 64 && small_setup then
+      Printf.printf "D %s %s\n" id (Fsdriver.n_to_string (args io_case_digest))
   | _ -> failwith ("bad " ^ kind ^ " line")
 
 let () =
